@@ -2,7 +2,7 @@
 
 Reads the ORDER of the effectful steps of `accept()` and emits it as a list of constructors of
 Model/AcceptSteps.accept_step, which Model/SubBook.v interprets (accept_run):
-    ASendToSink    self.inner.send(response.to_json()).await ... ?      (fallible: connection's channel closed)
+    ASendToSink    self.inner.send(<the response json>).await ... ?     (fallible: connection's channel closed)
     ANotifyCall    self.subscribe.send(response) ... ?                  (fallible: the subscribe-call future is gone)
     ATableInsert   self.subscribers.lock().insert(self.uniq_sub.clone(), ..)
     ABuildSink     Ok(SubscriptionSink { .. })
@@ -20,7 +20,8 @@ import translate, vlib
 REL = "core/src/server/subscription.rs"
 
 ANCHORS = [
-    ("ASendToSink", "send to the connection's sink", r"self\s*\.\s*inner\s*\.\s*send\s*\(\s*response\s*\.\s*to_json\s*\(\s*\)\s*\)"),
+    # any argument: `self.inner.send(response.to_json())` as well as `let json = response.to_json(); .. self.inner.send(json)`
+    ("ASendToSink", "send to the connection's sink", r"self\s*\.\s*inner\s*\.\s*send\s*\("),
     ("ANotifyCall", "notify the subscribe call", r"self\s*\.\s*subscribe\s*\.\s*send\s*\(\s*response\s*\)"),
     ("ATableInsert", "insert into the subscriber table", r"self\s*\.\s*subscribers\s*\.\s*lock\s*\(\s*\)\s*\.\s*insert\s*\("),
     ("ABuildSink", "build the sink", r"Ok\s*\(\s*SubscriptionSink\s*\{"),
